@@ -170,10 +170,11 @@ fields_by_range = Contract("C04.TextThroughputExtractor.get_fields_by_range", ta
 
 
 # --- concatenate of 2 and of 3 extractors ----------------------------------------------------------------------------------
-def _setup_cat(k):
+def _setup_cat(k, flags=None):
     def setup(ctx):
         st = St()
-        st.xs = [_extractor(ctx, st, tag="_%d" % j, contiguous=True) for j in range(k)]
+        st.flags = flags or [True] * k
+        st.xs = [_extractor(ctx, st, tag="_%d" % j, contiguous=st.flags[j]) for j in range(k)]
         for x in st.xs[1:]:
             ctx.assume(x.nf == st.xs[0].nf)
         st.selfv = None
@@ -202,7 +203,7 @@ def _ens_cat(ctx, st, ret):
                                                       And(nfs.at2(r0 + i, f) == x.fs(i, f) + o0, nfl.at2(r0 + i, f) == x.fl(i, f))), nvars=2))]
         row0, off0 = row0 + x.n, off0 + x.N
     goals += [("total.rows", I(nes.length) == row0), ("total.bytes", I(data.length) == off0),
-              ("contiguity.flag.is.the.conjunction", ret.get("_is_contiguous") is True)]
+              ("contiguity.flag.is.the.conjunction", ret.get("_is_contiguous") is all(st.flags))]
     return goals
 
 
@@ -360,7 +361,80 @@ bam_getitem = Contract("C04.BamBufferExtractor.__getitem__[index array]", target
                        canaries=[("ends not selected", "self._ends[item]", "self._ends"),
                                  ("claims contiguous", "is_contigous=False", "is_contigous=True")])
 
-CONTRACTS = [make_contiguous, getitem, fields_by_range, cat2, cat3, bam_make_contiguous, bam_make_contiguous_memo, bam_getitem]
+# pieces that are row selections (not contiguous) next to untouched ones: the merged extractor may claim contiguity only when EVERY piece is contiguous -
+# otherwise an unmodified write would emit the rows a selection dropped
+cat2_mixed = [Contract("C04.TextThroughputExtractor.concatenate[2 buffers, contiguous=%s]" % "".join("T" if f else "F" for f in fl), target=lambda: _T().concatenate.__func__,
+                       setup=_setup_cat(2, fl), requires=_req_cat, ensures=_ens_cat, decorators={"@classmethod": "receiver is the class"},
+                       canaries=[("flag of the first piece only", "is_contiguous=all(b._is_contiguous for b in buffers))", "is_contiguous=buffers[0]._is_contiguous)")] if fl == [True, False] else [])
+              for fl in ([True, False], [False, True], [False, False])]
+# a unit-step slice of a BAM selection - of a freshly read (contiguous) buffer and of a row selection that still shares the file's bytes
+def _setup_bgs(contiguous):
+    def setup(ctx):
+        st = St()
+        st.x = _bam_extractor(contiguous)
+        st.a, st.b = z3.Int("slice_start"), z3.Int("slice_stop")
+        st.selfv = st.x.obj
+        st.args = [slice(st.a, st.b)]
+        return st
+    return setup
+
+
+def _ens_bgs(ctx, st, ret):
+    x = st.x
+    data, ns, ne = ret.get("_data"), ret.get("_new_lines"), ret.get("_ends")
+    m = st.b - st.a
+    out = [("rows", And(I(ns.length) == m, I(ne.length) == m)),
+           ("header.kept", ret.get("_header_data") is x.obj.get("_header_data")), ("class.kept", ret._cls is _X())]
+    if ret.get("_is_contigous") is False:
+        # a view: the parent's bytes with the selected record bounds (compaction - proved above - makes it the concatenation of exactly these records)
+        return out + [("same.bytes", data is x.obj.get("_data")),
+                      ("records.selected", Forall(lambda j: Implies(in_range(j, m), And(ns.at(j) == x.es(st.a + j), ne.at(j) == x.ee(st.a + j)))))]
+    # claimed contiguous: then the data must BE the concatenation of exactly the selected records, in order, tiling it
+    return out + [("claims.contiguity.only.for.data.that.is.the.selected.records: tiling", And(Implies(m > 0, And(ns.at(0) == 0, ne.at(m - 1) == data.length)), Implies(m == 0, I(data.length) == 0))),
+                  ("claims.contiguity...: consecutive", Forall(lambda j: Implies(And(in_range(j, m), j + 1 < m), ne.at(j) == ns.at(j + 1)))),
+                  ("claims.contiguity...: content", Forall(lambda j, k: Implies(And(in_range(j, m), in_range(k, x.ee(st.a + j) - x.es(st.a + j))),
+                                                                              And(I(ne.at(j)) - I(ns.at(j)) == x.ee(st.a + j) - x.es(st.a + j), data.at(I(ns.at(j)) + k) == x.D(x.es(st.a + j) + k))), nvars=2))]
+
+
+def _conc_bgs(contiguous):
+    def concretize(model, ctx, st, oid):
+        """the model's record count and slice bounds (capped) on a real extractor: records of unequal sizes, separated by unused bytes when the
+        parent is a row selection; the real result must describe exactly the selected records"""
+        import numpy as np
+        ev = lambda t: model.eval(t, model_completion=True).as_long()
+        n = max(2, min(ev(st.x.n), 6))
+        a = max(0, min(ev(st.a), n))
+        b = max(a, min(ev(st.b), n))
+        if b - a < 1:
+            a, b = 0, min(2, n)
+        sizes = [3 + (i % 3) for i in range(n)]
+        gap = 0 if contiguous else 2
+        starts, pos = [], 0
+        for s in sizes:
+            starts.append(pos)
+            pos += s + gap
+        data = (np.arange(pos) % 251).astype(np.uint8)
+        starts, ends = np.array(starts), np.array(starts) + np.array(sizes)
+        parent = _X()(data, starts, ends, [("chr1", 10)], is_contigous=contiguous)
+        want = [data[s:e].tolist() for s, e in zip(starts[a:b], ends[a:b])]
+        child = parent[slice(a, b)]
+        got = [np.asarray(child._data)[s:e].tolist() for s, e in zip(child._new_lines, child._ends)]
+        written = np.asarray(child.data).tolist()
+        flat = [v for r in want for v in r]
+        return {"reproduced": got != want or written != flat, "input": {"record sizes": sizes, "unused bytes between records": gap, "slice": [a, b]},
+                "records of the result": got, "expected": want, "bytes handed to the writer": written, "expected bytes": flat}
+    return concretize
+
+
+bam_getitem_slice = [Contract("C04.BamBufferExtractor.__getitem__[slice of a %s buffer]" % ("contiguous" if c else "row-selected"), target=lambda: _X().__getitem__, setup=_setup_bgs(c),
+                              requires=(lambda c: lambda ctx, st: _wf_bam(st.x) + [st.a >= 0, st.a <= st.b, st.b <= st.x.n] + (
+                                  [Implies(st.x.n > 0, And(st.x.es(0) == 0, st.x.ee(st.x.n - 1) == st.x.N)),
+                                   Forall(lambda i: Implies(And(in_range(i, st.x.n), i + 1 < st.x.n), st.x.ee(i) == st.x.es(i + 1)), triggers=[st.x.ee], name="a contiguous buffer: its records tile the data")]
+                                  if c else []))(c), ensures=_ens_bgs,
+                              callees={"bionumpy.encoded_array.as_encoded_array": lambda ip, args, kwargs, lineno: Opaque("chromosome names (header)")},
+                              concretize=_conc_bgs(c))
+                     for c in (True, False)]
+CONTRACTS = [make_contiguous, getitem, fields_by_range, cat2, cat3] + cat2_mixed + bam_getitem_slice + [bam_make_contiguous, bam_make_contiguous_memo, bam_getitem]
 from contracts import thorough as _thorough      # noqa: E402
 if _thorough():
     CONTRACTS += [Contract("C04.TextThroughputExtractor.concatenate[%d buffers]" % _k, target=lambda: _T().concatenate.__func__, setup=_setup_cat(_k), requires=_req_cat,
